@@ -158,7 +158,7 @@ void WorldQ::on_event(const Event &e) {
   if (qmut) {
     check_pattern(n, call_name(e.call));
     // a published or preprocessed message must not lose its body
-    if (enabled("c03") && e.call == C_UNLINK && dir == "mess") { auto it = bynum.find(n); if (it != bynum.end()) { GMsg *m = it->second; m->mess_gone = true; if (m->accepted && m->phase != GMsg::FINISHED) violate("C03.message-removed-unfinished", "mess/" + std::to_string(n) + " of " + m->id + " unlinked by " + p->actor()); bynum.erase(it); } }
+    if (e.call == C_UNLINK && dir == "mess") { auto it = bynum.find(n); if (it != bynum.end()) { GMsg *m = it->second; m->mess_gone = true; if (enabled("c03") && m->accepted && m->phase != GMsg::FINISHED) violate("C03.message-removed-unfinished", "mess/" + std::to_string(n) + " of " + m->id + " unlinked by " + p->actor()); bynum.erase(it); } }
   }
   // published files are immutable
   if ((e.call == C_WRITE || e.call == C_FTRUNCATE) && e.ret >= 0 && e.ino && enabled("c01")) {
@@ -254,7 +254,7 @@ void WorldQ::on_clean_event(const Event &e) {
       uint8_t b = pattern.count(n) ? pattern[n] : 0;
       if (b != 0) violate("C02.body-removed-out-of-order", "mess/" + std::to_string(n) + " unlinked while entry is " + pat_str(b));
       GMsg *m = bynum.count(n) ? bynum[n] : nullptr;
-      bool eliminating = m && m->info_unlinked_by_send && m->send_incarnation == send_incarnation;
+      bool eliminating = m && m->info_unlinked_by_send && m->eliminated_in == send_incarnation;
       int64_t at = e.ino ? e.ino->atime : 0;
       if (!eliminating && !(k->clock > at + OSSIFIED)) violate("C02.premature-collection", "mess/" + std::to_string(n) + " (atime " + std::to_string(at) + ") collected at " + std::to_string(k->clock) + " although it is neither being eliminated nor older than 36 h");
       for (auto &pp : k->procs) { Proc *q = pp.second; if (q->st == Proc::LIVE && q->role == "qmail-queue" && bypid.count(q->pid) && bypid[q->pid]->num == n && !eliminating && bypid[q->pid] == m && k->clock <= at + 86400) violate("C02.collected-under-live-injector", "mess/" + std::to_string(n)); }
@@ -439,7 +439,7 @@ void WorldQ::on_send_event(const Event &e) {
           if (!r.marked && !final_report) { violate("C03.channel-file-removed-with-pending", e.path + " unlinked while " + r.addr + " is neither marked done nor finally reported"); break; }
         }
       } else if (dir == "info" && m && !in_todo) {
-        m->info_unlinked_by_send = true;
+        m->info_unlinked_by_send = true; m->eliminated_in = send_incarnation;
         if (m->phase == GMsg::PREPROCESSED && enabled("c03")) {
           for (auto &r : m->rc) {
             bool fine = r.k_done || r.k_reports > 0 || r.bounced || r.exempt || (r.marked && r.cmds == 0 /* finished before this ghost saw it (planted / pre-crash) */);
@@ -492,7 +492,7 @@ void WorldQ::finish() {
   finish_c01(); finish_c03();
   if (second_pid && enabled("c02") && !second_got_lock) {
     int code = (second_status >> 8) & 0xff;
-    if (second_status != -1 && code != 111) violate("C02.second-daemon-status", "second qmail-send exited " + std::to_string(code) + ", expected 111");
+    if (second_status != -1 && (second_status & 0x7f) == 0 && code != 111) violate("C02.second-daemon-status", "second qmail-send exited " + std::to_string(code) + ", expected 111");
   }
   if (tg) tg->finish();
   // abstract state for coverage: multiset over messages of (phase, #T, #D)
